@@ -28,7 +28,7 @@ EXPLANATION = (
     "NOT decided: that draws validate (hypothesis search + numpy/pandas dtype conversion)."
 )
 LEVEL_RULE = "one obligation per (check strategy, path) / parameter / fallback site"
-FLOORS = {"R1": 14, "R2": 30, "R3": 14, "R4": 1, "R5": 3, "R6": 2, "R7": 3, "R8": 1, "R9": 1, "R10": 1, "R11": 10, "R12": 15}
+FLOORS = {"R1": 14, "R2": 30, "R3": 14, "R4": 1, "R5": 3, "R6": 2, "R7": 3, "R8": 1, "R9": 1, "R10": 1, "R11": 10, "R12": 15, "R13": 1}
 
 PD = "pandera/backends/pandas/builtin_checks.py"
 ST = "pandera/strategies/pandas_strategies.py"
@@ -616,7 +616,36 @@ def r12_strategy_forwarding(ctx):
         raise AnalysisError(f"strategy forwarding: only {n} forwarded schema attributes found")
 
 
+def r13_series_index_generated(ctx):
+    """SeriesSchema.validate checks the values *and* `schema.index`.  The strategy that generates a Series for it therefore
+    has to generate the index from `self.index` as well (as the dataframe strategy does through set_pandas_index):
+    otherwise every draw carries a RangeIndex and a schema with an index component rejects all of its own examples."""
+    ix = ctx.ix
+    ss = ix.cls("pandera/api/pandas/array.py::SeriesSchema")
+    validates_index = any(isinstance(x, ast.Attribute) and x.attr == "index" and txt(x.value) == "self"
+                          for g in ss.methods.get("validate", []) for x in ast.walk(g.node))
+    if not validates_index:
+        raise AnalysisError("SeriesSchema.validate does not mention self.index")
+    f = ss.lookup("strategy")
+    if f is None:
+        raise AnalysisError("SeriesSchema.strategy missing")
+    ctx.touched(f)
+    from ..util import Expander
+    ex = Expander(f.node)
+    is_index = lambda x: (isinstance(x, ast.Attribute) and x.attr == "index" and txt(x.value) == "self") or (
+        isinstance(x, ast.Call) and isinstance(x.func, ast.Name) and x.func.id == "getattr" and len(x.args) >= 2
+        and isinstance(x.args[1], ast.Constant) and x.args[1].value == "index")
+    # the index component has to flow into the strategy that is returned
+    uses = any(is_index(x) for r in walk_no_nested(f.node) if isinstance(r, ast.Return) and r.value is not None
+               for d in ex.closure(r.value) for x in ast.walk(d))
+    ctx.ob("R13", f, "the strategy of a SeriesSchema generates the index component it validates", uses,
+           "self.index is handed to the strategy" if uses else
+           f"{f.short} never looks at `index`: SeriesSchema(int, index=Index(int, Check.ge(100), name='key')).example() carries a RangeIndex and is rejected by the schema "
+           "(25 of 25 draws)", f.loc(f.node))
+
+
 def run(ctx):
+    r13_series_index_generated(ctx)
     r11_classifiers(ctx)
     r12_strategy_forwarding(ctx)
     from ..defassign import check_modules
